@@ -302,6 +302,58 @@ pub fn run_population(r: &mut Rng, lang: &Lang, stratum: &str, check: &str, nstm
     }
 }
 
+
+/// Literal-typing probe: integral literals around the 32-bit and 53-bit boundaries written into a BIGINT column and
+/// used in comparison predicates (no arithmetic on them); every statement is compared with the reference model.
+pub fn literal_probe(r: &mut Rng, check: &str) {
+    let lits: Vec<i128> = vec![-9007199254740992, -5000000000, -2147483649, -2147483648, -2147483647, -1, 0, 1, 2147483646, 2147483647, 2147483648, 4294967295, 4294967296, 5000000000, 9007199254740992];
+    let t = Table { name: "lb".into(), cols: vec![Col { name: "id".into(), ty: Ty::BigInt, not_null: false, default: None }, Col { name: "v".into(), ty: Ty::BigInt, not_null: false, default: None }], uniques: vec![], rows: vec![] };
+    let db = Dbx::create(default_cfg());
+    let mut state = State::default();
+    let mut setup: Vec<String> = vec![];
+    let mut run = |st: Stmt, state: &mut State, setup: &mut Vec<String>| -> bool {
+        let o = db.exec(&st.sql());
+        let m = state.apply(&st);
+        report::eval(Some(fnv(format!("lit|{}|{}", setup.len(), st.sql()).as_bytes())));
+        report::count("literal_probe_statements", 1);
+        if let Some(d) = compare(&o, &m) {
+            report::violation(&format!("{}:literal-typing:{}:[]", check, d.tag()), &format!("{} => {}", st.sql(), o.show()), case_json(setup, &st, &o, &m, &[]));
+            return false;
+        }
+        setup.push(st.sql());
+        true
+    };
+    if !run(Stmt::Create(t.clone()), &mut state, &mut setup) {
+        return;
+    }
+    let mut order: Vec<usize> = (0..lits.len()).collect();
+    r.shuffle(&mut order);
+    for (n, i) in order.iter().take(r.range(6, lits.len() as i64) as usize).enumerate() {
+        let ins = Stmt::Insert("lb".into(), None, vec![vec![Expr::Lit(V::I(n as i128 + 1)), Expr::Lit(V::I(lits[*i]))]]);
+        if !run(ins, &mut state, &mut setup) {
+            return;
+        }
+    }
+    let from = vec![FromItem { table: "lb".into(), alias: None, join: JoinKind::Inner, on: None }];
+    let all = Select { items: vec![Item::Star], from: from.clone(), ..Default::default() };
+    if !run(Stmt::Select(all), &mut state, &mut setup) {
+        return;
+    }
+    for _ in 0..8 {
+        let l = *r.pick(&lits);
+        let op = *r.pick(&[Op::Lt, Op::Le, Op::Eq, Op::Ge, Op::Gt, Op::Ne]);
+        let q = Select { items: vec![Item::Expr(col("id")), Item::Expr(col("v"))], from: from.clone(), wher: Some(bin(op, col("v"), Expr::Lit(V::I(l)))), ..Default::default() };
+        if !run(Stmt::Select(q), &mut state, &mut setup) {
+            return;
+        }
+    }
+    let l = *r.pick(&lits);
+    let _ = run(Stmt::Delete("lb".into(), Some(bin(Op::Lt, col("v"), Expr::Lit(V::I(l))))), &mut state, &mut setup);
+    let all = Select { items: vec![Item::Star], from, ..Default::default() };
+    let _ = run(Stmt::Select(all), &mut state, &mut setup);
+    let _ = take_panics();
+}
+
 pub fn run(seed: u64, tier: &str, shard: u64, only_atom: Option<&str>) {
     let (pops, per) = if tier == "thorough" { (6000, 40) } else { (300, 40) };
     let mut master = Rng::new(seed ^ (shard.wrapping_mul(0x1234_5678_9abc_def1)));
@@ -321,6 +373,9 @@ pub fn run(seed: u64, tier: &str, shard: u64, only_atom: Option<&str>) {
         };
         report::arm(&format!("c05 population {} ({})", p, stratum), 120);
         run_population(&mut r, &lang, &stratum, "C05", per);
+        if only_atom.is_none() && p % 8 == 0 {
+            literal_probe(&mut r, "C05");
+        }
         report::disarm();
     }
 }
